@@ -234,4 +234,14 @@ func (b *block) ownedBy(r *Reader) bool { return b.owner == r }
 
 func (b *block) hasData() bool { return b.buf != nil }
 
-func (b *block) txOffset() Offset { return b.offset }
+func (b *block) txOffset() Offset {
+	if b.buf != nil && b.buf.Len() == 0 && b.buf.Size() == MaxBlockSize {
+		// The end of a block holding the largest payload the format
+		// allows does not fit the 16 bit block offset (it wrapped to
+		// zero): it is the start of the following block.
+		if next := b.NextBase(); next >= 0 {
+			return Offset{File: next}
+		}
+	}
+	return b.offset
+}
